@@ -157,6 +157,13 @@ def _run(prog, tmp):
         m.systems.add_system(pop)
         make_collectors()
 
+    if prog.get("dup_collector") and acs:
+        first = next(iter(acs))
+        try:
+            m.systems.add_system(AgentCollector(m, FKINDS["const7"], None, False, id=first))
+        except KeyError:
+            pass            # documented: identifier already in use (C01); the registered collector is untouched
+
     def obs():
         envl = [[a.id, a[Val].v] for a in m.environment]
         recs = []
@@ -211,7 +218,7 @@ def random_program(rng, steps=8):
             ops.append(["between", popops(rng.randint(1, 2))])
         ops.append(["step", popops(rng.choice([0, 1, 1, 2, 3]))])
     return {"acs": acs, "fcs": fcs, "first": rng.choice(["pop", "collectors"]), "replace_env": rng.random() < 0.4,
-            "founder": rng.choice([None, None, 0, 1, 2, 3]), "ops": ops}
+            "founder": rng.choice([None, None, 0, 1, 2, 3]), "dup_collector": rng.random() < 0.4, "ops": ops}
 
 
 def sweep_programs():
